@@ -105,6 +105,12 @@ func ruleC03(p *Prog, r *Result) {
 		}
 		return false, "a document keeps its $parent key"
 	})
+	pd.all("every document of the file is looked at: the loop over the documents is left early only with an error", selectPaths(iter, func(pa *Path) bool { return pa.End == "return" }), "no break / early success inside the loop", func(pa *Path) (bool, string) {
+		if isFailure(pa) {
+			return true, ""
+		}
+		return false, "the scan stops before the last document of the file: a $parent in a later document is neither honoured nor removed"
+	})
 	pd.all("$parent: true is an error", selectPaths(iter, func(pa *Path) bool {
 		return guardPol(pa, "kind", val, "bool") == 1 && guardPol(pa, "truth", val, nil) == 1
 	}), "ErrInvalidParent", func(pa *Path) (bool, string) {
